@@ -322,7 +322,7 @@ def gen_bwe(ch, spec):
     nseg = ch.choice("wl", [1, 2, 4, 6, 10])
     ops = []
     for _ in range(nseg):
-        kind = ch.weighted("wl", [5, 2, 1, 1, 1])
+        kind = ch.weighted("wl", [5, 2, 1, 1, 1, 1])
         seg = {"dur": ch.choice("wl", [0.3, 1.0, 2.5, 5.0, 12.0]),
                "pps": ch.choice("wl", [10, 50, 200, 500, 1000, 3000]),
                "size": ch.choice("wl", ["zero", "tiny", "mixed", "mtu", "mixed", "mtu"]),
@@ -335,6 +335,12 @@ def gen_bwe(ch, spec):
             seg["cap"] = ch.choice("wl", [32, 100, 500])      # squeeze: queue builds, delay ramps
         elif kind == 4:
             seg["size"] = "zero"
+        elif kind == 5:
+            # payload-less packets squeezed through a thin link: over-use while the measurement is 0
+            seg.update(size="zero", cap=ch.choice("wl", [32, 100]), pps=ch.choice("wl", [500, 1000]),
+                       dur=ch.choice("wl", [1.0, 2.5, 5.0]))
+        if seg["dur"] * seg["pps"] > 6000:
+            seg["dur"] = round(6000.0 / seg["pps"], 3)
         ops.append(seg)
     return cfg, ops
 
